@@ -203,6 +203,11 @@ def check_recovery(sim, stats, info, acc, kind, fault, step, scb="ok"):
         acc.violation("heartbeat-starved", f"{kind}: heartbeat ticked {sim.heartbeat_ticks} times in {info['elapsed']:.1f} virtual s", w)
     acc.count("recoveries_checked")
     acc.cover("faults", f"{kind}/{fault}")
+    if step % 9 == 0:
+        acc.sample({"client": kind, "fault": fault, "injected_at_step": step, "status_callback": scb, "status_trace": sim.status,
+                    "fault_at_virtual_s": round(t_f, 3), "disconnected_at": round(disc, 3), "reconnected_at": round(conn, 3),
+                    "attempt_starts_s": [round(a["start"], 3) for a in sim.attempts][:8], "delivered_sources": [e["src"] for e in sim.trace if e["k"] == "recv"],
+                    "heartbeat_ticks": sim.heartbeat_ticks, "loop_steps": sim.loop.steps}, cap=6)
 
 
 def refusal_session(kind, k, exc, delay):
@@ -256,6 +261,8 @@ def check_backoff(sim, stats, acc, kind, k, exc):
     if not any(e["k"] == "recv" and e["src"] >= 100 for e in sim.trace):
         acc.violation("frame-on-new-connection-not-delivered", f"{kind}: frame sent after {k} refusals was not delivered", w)
     acc.count("recoveries_checked")
+    if k in (5, 13):
+        acc.sample({"client": kind, "refusals": k, "error": type(exc).__name__, "retry_waits_s": [round(x, 3) for x in waits], "status_trace": sim.status}, cap=6)
 
 
 def conformance(spec, acc):
